@@ -822,6 +822,22 @@ fn apply_fault(data: &mut Vec<u8>, f: &Value) -> bool {
             data.splice(p..p, ws);
             true
         }
+        "ws_shell" => {
+            let k = jusize(f, "core").min(data.len());
+            let core: Vec<u8> = if jbool(f, "from_end") { data[data.len() - k..].to_vec() } else { data[..k].to_vec() };
+            let ws = jhex(f, "ws").first().copied().unwrap_or(b' ');
+            let mut lead = jusize(f, "lead");
+            let trail = jusize(f, "trail");
+            if jbool(f, "fit") {
+                // total length equal to the well-formed text
+                lead = data.len().saturating_sub(k + trail);
+            }
+            let mut v = vec![ws; lead];
+            v.extend(core);
+            v.extend(std::iter::repeat(ws).take(trail));
+            *data = v;
+            true
+        }
         "lead_ones" => {
             // base58 strings with extra leading '1' characters (each stands for a zero byte)
             let k = jusize(f, "k").max(1);
@@ -1025,7 +1041,10 @@ impl Scenario for ArtefactMedium {
             } else if token_kind && rng.chance(1, 2) {
                 json!({"f": "token", "k": rng.below(16), "insert": rng.chance(1, 2), "with": *rng.pick(&["", "", "OP_PUSH", "OP_PUSHDATA1", "OP_PUSHDATA2", "OP_PUSHDATA4", "OP_PUSH 4294967295 00", "OP_PUSHDATA4 4294967296 00", "OP_PUSHDATA4 1073741824 00", "OP_PUSHDATA4 4294967295 00", "OP_PUSHDATA2 65535 00", "OP_PUSHDATA1 255 00", "OP_PUSH 75 00", "OP_PUSH 0 ", "OP_DATA20=", "OP_DATA==5", "OP_DATA=4294967296", "OP_DATA>=18446744073709551616", "OP_DATA<", "OP_DATA=", "OP_DATA=-1", "OP_DATA>", "0x", "zz", "é€", "a€", "OP_é", "17", "-1", "2147483648", "2147483647'", "4294967295", "4294967296", "2147483648h", "99999999999999999999", "'", "h", "/", "m", "m/", "0''", "OP_IF", "OP_ENDIF", "OP_ELSE", "\n", "\r", "\t"])})
             } else if is_text_kind(kind) && rng.chance(1, 10) {
-                match rng.below(3) {
+                match rng.below(4) {
+                    // round 11: almost nothing but spacing - a core of 0-3 characters of the text inside a shell of blanks, the whole
+                    // as long as the well-formed text (so that length guards taken before and after trimming disagree)
+                    3 => json!({"f": "ws_shell", "core": rng.below(4), "from_end": rng.chance(1, 2), "lead": *rng.pick(&[0u64, 1, 16, 32, 33, 34, 64]), "trail": *rng.pick(&[0u64, 0, 1, 16, 33, 64]), "fit": rng.chance(1, 2), "ws": *rng.pick(&["20", "20", "09", "0a", "0d"]), "level": "text"}),
                     0 => json!({"f": "text_case", "alt": rng.below(2), "level": "text"}),
                     1 => json!({"f": "text_ws", "pos": *rng.pick(&[0u64, 0, 1, 2, 7, 8, 1 << 20]), "ws": *rng.pick(&["20", "0a", "09", "0d0a", "2020", "00", "c2a0", "e28088", "0b", "0c", "c285", "e280a8", "e38080", "1c"]), "level": "text"}),
                     _ => json!({"f": "lead_ones", "k": *rng.pick(&[1u64, 2, 8, 40]), "level": "text"}),
